@@ -1,12 +1,15 @@
 #!/usr/bin/env python3
-"""Regenerates /verif/MANIFEST.json from tools/manifest_entries.json (hand-maintained per-property texts)."""
-import json, os, sys
+"""Regenerates /verif/MANIFEST.json from meta/Cxx.manifest.json and /verif/known_findings.json from
+meta/*.known.json (hand-maintained fragments, one per property so that work on different properties
+never touches the same file)."""
+import json, os, sys, glob
 ROOT = os.path.dirname(os.path.dirname(os.path.abspath(__file__)))
-E = json.load(open(os.path.join(ROOT, "tools", "manifest_entries.json")))
 props = [json.loads(l)["id"] for l in open(os.path.join(ROOT, "properties.jsonl"))]
+hooks = json.load(open(os.path.join(ROOT, "meta", "_hooks.json")))
 checks, na = [], []
 for pid in props:
-    e = E.get(pid)
+    p = os.path.join(ROOT, "meta", f"{pid}.manifest.json")
+    e = json.load(open(p)) if os.path.exists(p) else None
     if not e or not e.get("claimed"):
         na.append({"property_id": pid, "reason": (e or {}).get("reason", "check not built yet; see DESIGN.md §5 for the planned model and theorems")})
         continue
@@ -17,7 +20,7 @@ for pid in props:
         "evidence_file": f"/verif/evidence/{pid}.json",
         "replay_cmd_template": f"./check {pid} --replay {{path}}",
         "engine": "lean-proof+correspondence",
-        "level_claimed": {"category": "proof", "text": e["text"], "design_ref": e.get("design_ref", f"DESIGN.md §5 {pid}")},
+        "level_claimed": {"category": "proof", "text": e["text"], "design_ref": e.get("design_ref", f"DESIGN.md §5 {pid}, docs/{pid}.md")},
         "level_note": e["note"],
         "technique": e["technique"],
     })
@@ -28,7 +31,7 @@ m = {
         "guard": "verif",
         "enable": "go build -tags verif (the harness module replaces github.com/tdewolff/minify/v2 by /repo)",
         "baseline_off_cmd": "cd /repo && go test -mod=mod -json -vet=off -count=1 -timeout 25m ./...",
-        "source_commits": E.get("_hook_commits", []),
+        "source_commits": hooks.get("hook_commits", []),
         "add_only": True,
     },
     "engines": [
@@ -40,4 +43,8 @@ m = {
     "notes": "All checks rebuild against /repo's working tree (translator + go build -tags verif). Known findings: /verif/known_findings.json. Seeded changes and which checks catch them: DESIGN.md §10.",
 }
 json.dump(m, open(os.path.join(ROOT, "MANIFEST.json"), "w"), indent=1)
-print(f"MANIFEST.json: {len(checks)} checks, {len(na)} not claimed")
+known = []
+for f in sorted(glob.glob(os.path.join(ROOT, "meta", "*.known.json"))):
+    known += json.load(open(f))
+json.dump(known, open(os.path.join(ROOT, "known_findings.json"), "w"), indent=1)
+print(f"MANIFEST.json: {len(checks)} checks, {len(na)} not claimed; known_findings.json: {len(known)} entries")
